@@ -35,9 +35,10 @@ Proof.
     - (* lost *) destruct (find_proc (s_procs s) w0) as [pw|]; [|discriminate].
       destruct (on_remove_worker_EXF (s, []) _ _ _ _ _ (s', outs) (inv_cb _ HI) (pr_sorted _ HP) (pr_sorted _ HP') H0) as (_ & _ & P & _).
       destruct (P w p' Hp') as (_ & p0 & add & X1 & X2 & X3 & X4 & X5 & _). exists p0, add. repeat split; auto. left. exact X4.
-    - eapply (sfr_of_PR quietA _ s s [] s' outs); [eapply handle_submit_array_PR; [|exact H0]; intros w0 m Hm; exact Hm | exact Hsame | exact Hp'].
     - eapply (sfr_of_PR quietA _ s s [] s' outs); [|exact Hsame | exact Hp'].
-      destruct (bad_graph_rq _ _); [inversion H0; subst; apply PR_same; reflexivity|]. eapply handle_submit_graph_PR; [|exact H0]. intros w0 m Hm; exact Hm.
+      destruct (bad_submit_lengths _ _); [inversion H0; subst; apply PR_same; reflexivity|]. eapply handle_submit_array_PR; [|exact H0]; intros w0 m Hm; exact Hm.
+    - eapply (sfr_of_PR quietA _ s s [] s' outs); [|exact Hsame | exact Hp'].
+      destruct (bad_graph_rq _ _); [inversion H0; subst; apply PR_same; reflexivity|]. destruct (dead_dep _ _ _); [inversion H0; subst; apply PR_same; reflexivity|]. eapply handle_submit_graph_PR; [|exact H0]. intros w0 m Hm; exact Hm.
     - eapply (sfr_of_PR quietA _ s s [] s' outs); [eapply handle_open_PR; exact H0 | exact Hsame | exact Hp'].
     - eapply (sfr_of_PR quietA _ s s [] s' outs); [eapply handle_close_PR; exact H0 | exact Hsame | exact Hp'].
     - eapply (sfr_of_PR quietA _ s s [] s' outs); [eapply handle_cancel_PR; [|exact H0]; intros w0 m Hm; exact Hm | exact Hsame | exact Hp'].
